@@ -6,7 +6,7 @@ S = set
 BASE = dict(
     Accts=S(['a1', 'a2', 'a3']), FeeUnit=1000, MaxHeight=3, Deviations=S(),
     Topics=S(), Descs=S(['x']), Mons=S(['m']), RecKeys=S(['k1']), RecVals=S(['v1', 'v2']), FeePayers=S(['none']),
-    Dids=S(), DocNames=S(), Keys=S(), VmNames=S(), Seqs=S([0, 1, 2]), ForeignVm=False, LegacyGenesis=False,
+    Dids=S(), DocNames=S(), Keys=S(), VmNames=S(), Seqs=S([0, 1, 2]), ForeignVm=False, NearProofs=False, LegacyGenesis=False,
     DenomIds=S(), TokenIds=S(), DNames=S(), TDescs=S(['']),
     Amts=S(), GovAmts=S(), SendDenoms=S(), VestEnds=S(),
     Fees=S([0]), Kinds=S(), SignerSets='exact', ExecOn=False,
@@ -133,9 +133,12 @@ def preset(pid, tier):
         mcc = did(DocNames=docs, MaxDeliver=4 if (q or not deep) else 5, MaxHeight=3 if pid == 'C05' else 2,
                   NextKinds=ALL_NEXT if pid == 'C05' else (S(['BeginBlock', 'Redeliver']) if pid == 'C04' else S(['BeginBlock'])))
         simc = did(Accts=S(['a1', 'a2', 'a3']), Dids=S(['d1', 'd2', 'dc']), ViewDids=S(['d1', 'd2', 'dc']),
-                   DocNames=S(['A1', 'A2', 'B12', 'C1', 'D2', 'E1', 'F12', 'R1', 'U1', 'X1', 'N0', 'EMP']), ForeignVm=True, MaxDeliver=30, MaxHeight=6, NextKinds=ALL_NEXT_R, FailKeep=25)
+                   DocNames=S(['A1', 'A2', 'B12', 'C1', 'D2', 'E1', 'F12', 'R1', 'U1', 'X1', 'N0', 'EMP']), ForeignVm=True, NearProofs=True, MaxDeliver=30, MaxHeight=6, NextKinds=ALL_NEXT_R, FailKeep=25)
         tourc = did(DocNames=S(['A1', 'A2', 'F12', 'U1']) if q else S(['A1', 'A2', 'C1', 'D2', 'F12', 'U1']), Keys=S(['k1', 'k2']) if q else S(['k1', 'k2', 'k3']), MaxDeliver=2 if q else 3, MaxHeight=2)
         if pid == 'C11':
+            # the read operation is also asked for dp, a valid identifier that is a proper prefix of d1's and never registered
+            simc = dict(simc, ViewDids=simc['ViewDids'] | S(['dp']))
+            tourc = dict(tourc, ViewDids=tourc['ViewDids'] | S(['dp']))
             # documents whose method ids carry the twin did's prefix: fired at every toured state, with the DID field naming the twin
             tourc = dict(tourc, DocNames=tourc['DocNames'] | S(['X1']))
         sims = [sim(simc, 150 if q else 3000, 50)]
@@ -147,7 +150,7 @@ def preset(pid, tier):
             sims.append(sim(cross, 60 if q else 1000, 40))
         if pid == 'C04':
             # clients estimate gas by simulating the transaction they then broadcast; accepted messages are submitted again later in fresh transactions
-            again = did(Accts=S(['a1', 'a2']), Dids=S(['d1', 'dc']), ViewDids=S(['d1', 'dc']), DocNames=S(['A1', 'A2']), Keys=S(['k1', 'k2']), VmNames=S(['v1']),
+            again = did(Accts=S(['a1', 'a2']), Dids=S(['d1', 'dc']), ViewDids=S(['d1', 'dc']), DocNames=S(['A1', 'A2']), Keys=S(['k1', 'k2']), VmNames=S(['v1']), NearProofs=True,
                         MaxDeliver=24, MaxHeight=6, NextKinds=ALL_NEXT_R | S(['Resubmit']), FailKeep=25)
             sims.append(sim(again, 40 if q else 600, 40, genesis=dict(simfirst=True)))
             sims.append(sim(again, 20 if q else 300, 40))
@@ -157,7 +160,7 @@ def preset(pid, tier):
                          ForeignVm=True, LegacyGenesis=True, MaxDeliver=12, MaxHeight=5, NextKinds=ALL_NEXT, FailKeep=25)
             sims.append(sim(legacy, 40 if q else 600, 30, genesis=dict(legacydid=True)))
             # a registry with more entries than any default page size (150 bulk entries sorting before the alphabet's DIDs)
-            bulk = did(Accts=S(['a1', 'a2']), Dids=S(['d1', 'd2']), ViewDids=S(['d1', 'd2']), DocNames=S(['A1', 'A2']), Keys=S(['k1', 'k2']), VmNames=S(['v1']),
+            bulk = did(Accts=S(['a1', 'a2']), Dids=S(['d1', 'd2']), ViewDids=S(['d1', 'd2']), DocNames=S(['A1', 'A2']), Keys=S(['k1', 'k2']), VmNames=S(['v1']), NearProofs=True,
                        MaxDeliver=10, MaxHeight=5, NextKinds=ALL_NEXT, FailKeep=25)
             sims.append(sim(bulk, 24 if q else 300, 30, genesis=dict(bulk=150)))
             # read noise: before every step's views the same queries are served at the previous committed height; transactions are simulated before delivery
